@@ -161,6 +161,9 @@ idl_a_demux_feed		(vbi_idl_demux *	dx,
 		return TRUE;
 	}
 
+	/* Got a good copy of the packet, no repeat expected anymore. */
+	dx->ri = -1;
+
 	if (dx->ci >= 0) {
 		if (0 != ((ci ^ dx->ci) & 0xFF)) {
 			/* Packet(s) lost. */
